@@ -112,6 +112,87 @@ def throttle (st : State) (now : Int) (k : Key) (a : Action) : State × Nat :=
 def cleanup (st : State) (now : Int) : State :=
   fun k a => filterEntries now (st k a)
 
+/-- `CheckBruteforce` split at its lock boundary (`getEntries` under the read lock, later `setEntries`
+under the write lock): the write-back uses the list read earlier.  The write happens only if pruning
+removed something — as long as the regenerated fact `writeBackOnlyIfPruned` holds; without the guard the
+stale list would be written back on every passed check. -/
+def writeBack (st : State) (now : Int) (k : Key) (a : Action) (readEarlier : List Int) : State :=
+  if readEarlier = [] ∨ blocked now readEarlier then st
+  else if writeBackOnlyIfPruned && (filterEntries now readEarlier).length == readEarlier.length then st
+  else st.set k a (filterEntries now readEarlier)
+
+/-! ### critical sections (regenerated) and interleavings
+
+`Generated.Throttle.*Paths` list, per control-flow path of a method, the critical sections of the
+throttler's mutex it goes through and the kinds of access to the failure table made inside each.
+The sequential model above treats `throttle` (one `addEntry`) as a single step; the definitions below
+interpret the regenerated sections as a program, so that "every interleaving of concurrent `addEntry`
+calls equals some sequential order" is a theorem about the sections the source really has
+(`Props/C17.lean`, section 6). -/
+
+inductive Acc where
+  | read      -- local copy := the shared entry list
+  | write     -- shared entry list := local copy ++ [own entry]
+  | other     -- an access kind the model does not know (makes the fact theorems fail)
+  deriving DecidableEq, Repr
+
+def Acc.ofString (s : String) : Acc :=
+  if s = "read" then .read else if s = "write" then .write else .other
+
+/-- A program: the critical sections of one path, each a list of accesses. Sections of one mutex are
+atomic with respect to each other (read-only sections under the read lock commute with each other). -/
+abbrev Prog := List (List Acc)
+
+def progOf (path : List (String × List String)) : Prog := path.map fun sec => sec.2.map Acc.ofString
+
+/-- Every section is taken under the mutex, and every section that writes holds the write lock. -/
+def wellLocked (paths : List (List (String × List String))) : Bool :=
+  !paths.isEmpty && paths.all fun p => p.all fun sec =>
+    (sec.1 == "W" || sec.1 == "R") && (!sec.2.contains "write" || sec.1 == "W") &&
+      sec.2.all fun a => a == "read" || a == "write"
+
+/-- The programs a thread inside `addEntry` may follow (one per control-flow path). -/
+def addEntryProgs : List Prog := addEntryPaths.map progOf
+
+/-- One thread that records the failure `entry`. -/
+structure Thr where
+  entry : Int
+  todo : Prog
+  loc : List Int := []
+  deriving Repr, DecidableEq
+
+structure Conc where
+  shared : List Int          -- clients[key][action]
+  thr : List Thr
+  deriving Repr, DecidableEq
+
+def runAcc (entry : Int) : List Int × List Int → Acc → List Int × List Int
+  | (sh, _), .read => (sh, sh)
+  | (_, loc), .write => (loc ++ [entry], loc)
+  | s, .other => s
+
+def runSection (entry : Int) (sh loc : List Int) (sec : List Acc) : List Int × List Int :=
+  sec.foldl (runAcc entry) (sh, loc)
+
+/-- The scheduler lets thread `i` run its next critical section. -/
+def Conc.sched (c : Conc) (i : Nat) : Conc :=
+  match c.thr[i]? with
+  | some t =>
+    match t.todo with
+    | sec :: rest =>
+      let r := runSection t.entry c.shared t.loc sec
+      { shared := r.1, thr := c.thr.set i { t with todo := rest, loc := r.2 } }
+    | [] => c
+  | none => c
+
+def Conc.run (c : Conc) (schedule : List Nat) : Conc := schedule.foldl Conc.sched c
+
+def Conc.pending (c : Conc) : Nat := c.thr.countP fun t => !t.todo.isEmpty
+
+/-- `n` threads, each about to record a failure at time `now`, thread `j` following `progs[j]`. -/
+def Conc.start (init : List Int) (now : Int) (progs : List Prog) : Conc :=
+  { shared := init, thr := progs.map fun p => { entry := now, todo := p } }
+
 /-! ### operations as seen by the correspondence harness -/
 
 inductive Op where
@@ -121,6 +202,9 @@ inductive Op where
   /-- two-phase variant (check now, throttle later with the captured time) -/
   | checkOnly (now : Int) (addr : Addr) (a : Action)
   | throttleOnly (now : Int) (addr : Addr) (a : Action)
+  /-- `n` connections from one address pass CheckBruteforce (at `now`), then all fail at once: their
+  `throttle` calls run concurrently.  Observed at rest. -/
+  | par (now : Int) (addr : Addr) (a : Action) (n : Nat)
   deriving Repr
 
 inductive Out where
@@ -128,7 +212,26 @@ inductive Out where
   | passed                      -- not refused, attempt succeeded: nothing recorded
   | delayed (ns : Nat)          -- not refused, failed: reply delayed by ns
   | none
+  /-- state at rest after a `par`: how many were let through, number of records of the key/kind not
+  older than twelve hours, whether a further attempt is refused, the delays (ascending) -/
+  | rest (passed : Nat) (records : Nat) (blocked : Bool) (delays : List Nat)
   deriving DecidableEq, Repr
+
+/-- Records of a list that are not older than `maxBruteforceAge` at `now`. -/
+def youngCount (now : Int) (es : List Int) : Nat :=
+  (es.filter fun t => !cmpInt ageCmp (now - t) (maxBruteforceAge : Int)).length
+
+/-- `par`: the checks come first (only the first one can prune), then — by the atomicity of
+`addEntry` (`addEntryProgs`, theorem `C17_concurrent_failures_all_recorded`) — the `n` concurrent
+`throttle` calls amount to `n` appends in some order; all carry the same time `now`. -/
+def par (st : State) (now : Int) (k : Key) (a : Action) (n : Nat) : State × Out :=
+  let (st1, r) := check st now k a
+  if r then (st1, .rest 0 (youngCount now (st1 k a)) true [])
+  else
+    let es0 := st1 k a
+    let es := es0 ++ List.replicate n now
+    (st1.set k a es,
+     .rest n (youngCount now es) (blocked now es) ((List.range n).map fun i => getDelay (es0.length + i)))
 
 def step (st : State) : Op → State × Out
   | .attempt now addr a failed =>
@@ -146,6 +249,7 @@ def step (st : State) : Op → State × Out
   | .throttleOnly now addr a =>
     let (st1, d) := throttle st now (throttleKey addr) a
     (st1, .delayed d)
+  | .par now addr a n => par st now (throttleKey addr) a n
 
 def run (st : State) : List Op → State × List Out
   | [] => (st, [])
